@@ -1335,6 +1335,8 @@ fn interp_jump_relative(cond: JumpCondition, offset: i8, registers: &mut Registe
     }
     registers.cycles += 1;
   }
+  // the program counter is 16 bits wide
+  registers.ip &= 0xffff;
   cpu::STATUS_NORMAL
 }
 
